@@ -105,7 +105,7 @@ pub struct Run {
     pub want_fp: bool,
     /// known findings excluded by construction in this run (signature -> count)
     pub excluded_known: u32,
-    /// the property this run is checked for. For the model-independent properties (C01, C17, C18:
+    /// the property this run is checked for. For the model-independent properties (C01, C04, C07, C17, C18:
     /// their oracles only use observed facts, never a world's reference model) a violation of
     /// another property does not stop the history, it is kept in `other`.
     pub focus: Option<&'static str>,
@@ -113,6 +113,10 @@ pub struct Run {
     /// a second property that a panic inside a library call contradicts in this world (e.g. an
     /// arithmetic overflow in the semaphore's permit accounting is an over-grant: C05)
     pub panic_also: Option<&'static str>,
+    /// the property a panic inside a library call contradicts first in this world (data structure
+    /// worlds: a panic of the list / heap / ring buffer on a precondition-respecting sequence is a
+    /// failure of C20 / C19 itself); `None` = C01
+    pub panic_prop: Option<&'static str>,
     step_now: usize,
 }
 
@@ -133,12 +137,14 @@ impl Run {
             focus: None,
             other: None,
             panic_also: None,
+            panic_prop: None,
             step_now: 0,
         }
     }
     fn keeps_going(&self, prop: &str, also: Option<&str>, kind: &str) -> bool {
         match self.focus {
-            Some(f) if matches!(f, "C01" | "C17" | "C18") => prop != f && also != Some(f) && kind != "panic",
+            // C04 / C07 compare every acquisition with the observed arrival order and nothing else
+            Some(f) if matches!(f, "C01" | "C04" | "C07" | "C17" | "C18") => prop != f && also != Some(f) && kind != "panic",
             _ => false,
         }
     }
@@ -197,8 +203,9 @@ impl Run {
         match lib_call(f) {
             Ok(v) => Some(v),
             Err(msg) => {
-                match self.panic_also {
-                    Some(also) if msg.contains("overflow") => self.violate2("C01", also, "panic", format!("{} panicked: {}", what, msg)),
+                match (self.panic_prop, self.panic_also) {
+                    (Some(p), _) => self.violate2(p, "C01", "panic", format!("{} panicked: {}", what, msg)),
+                    (None, Some(also)) if msg.contains("overflow") => self.violate2("C01", also, "panic", format!("{} panicked: {}", what, msg)),
                     _ => self.violate("C01", "panic", format!("{} panicked: {}", what, msg)),
                 }
                 None
@@ -526,7 +533,9 @@ pub fn check_list_queues(
         let bwd = &es[b0..b1];
         if fwd.len() >= (1 << 16) || bwd.len() >= (1 << 16) {
             run.violate("C01", "queue-cycle", format!("queue {} walk did not terminate", q));
-            return;
+            if run.failed() {
+                return;
+            }
         }
         // (b) forward walk equals reversed backward walk, link fields symmetric
         if fwd.len() != bwd.len() || fwd.iter().zip(bwd.iter().rev()).any(|(a, b)| a.addr != b.addr) {
@@ -540,14 +549,18 @@ pub fn check_list_queues(
                     bwd.iter().map(|e| e.addr).collect::<Vec<_>>()
                 ),
             );
-            return;
+            if run.failed() {
+                return;
+            }
         }
         for (i, e) in fwd.iter().enumerate() {
             let want_prev = if i == 0 { 0 } else { fwd[i - 1].addr };
             let want_next = if i + 1 == fwd.len() { 0 } else { fwd[i + 1].addr };
             if e.links[0] != want_prev || e.links[1] != want_next {
                 run.violate("C01", "queue-links-inconsistent", format!("queue {}: node {:#x} has prev/next {:x?}, expected [{:#x},{:#x}]", q, e.addr, &e.links[..2], want_prev, want_next));
-                return;
+                if run.failed() {
+                    return;
+                }
             }
         }
         // (a) every linked node belongs to a pending slot of this queue, each once
@@ -561,7 +574,9 @@ pub fn check_list_queues(
                         "dangling-node",
                         format!("queue {}: linked node {:#x} (state {}) lies in no live future of this queue", q, e.addr, e.state),
                     );
-                    return;
+                    if run.failed() {
+                        return;
+                    }
                 }
                 Some(v) => {
                     if !v.pending {
@@ -570,11 +585,15 @@ pub fn check_list_queues(
                             "linked-but-not-waiting",
                             format!("queue {}: slot {} is linked (node state {}) but is not a pending future (never polled, completed or cancelled)", q, v.idx, e.state),
                         );
-                        return;
+                        if run.failed() {
+                            return;
+                        }
                     }
                     if seen & (1u64 << v.idx) != 0 {
                         run.violate("C01", "linked-twice", format!("queue {}: slot {} is linked twice", q, v.idx));
-                        return;
+                        if run.failed() {
+                            return;
+                        }
                     }
                     seen |= 1u64 << v.idx;
                     let wv = match e.waker {
@@ -595,7 +614,9 @@ pub fn check_list_queues(
                     "waiting-but-not-linked",
                     format!("queue {}: slot {} is pending, has no unconsumed wake-up, and is not in the wait queue (it can never be woken)", q, v.idx),
                 );
-                return;
+                if run.failed() {
+                    return;
+                }
             }
         }
     }
@@ -641,46 +662,62 @@ pub fn check_heap_queue(snap: &Snapshot, views: &[SlotView], run: &mut Run, orde
     let es: Vec<&EntryRec> = snap.entries.iter().filter(|e| e.queue == 0).collect();
     if es.len() >= (1 << 15) {
         run.violate("C01", "queue-cycle", "timer heap walk did not terminate".into());
-        return;
+        if run.failed() {
+            return;
+        }
     }
     let find = |addr: usize| es.iter().position(|e| e.addr == addr);
     for (i, e) in es.iter().enumerate() {
         if es.iter().skip(i + 1).any(|o| o.addr == e.addr) {
             run.violate("C01", "linked-twice", format!("timer heap: node {:#x} is reachable twice", e.addr));
-            return;
+            if run.failed() {
+                return;
+            }
         }
         let [parent, prev, next, child] = e.links;
         if i == 0 && (parent != 0 || prev != 0 || next != 0) {
             run.violate("C01", "queue-links-inconsistent", format!("timer heap: root {:#x} has parent/sibling links {:x?}", e.addr, e.links));
-            return;
+            if run.failed() {
+                return;
+            }
         }
         if parent != 0 {
             match find(parent) {
                 None => {
                     run.violate("C01", "queue-links-inconsistent", format!("timer heap: node {:#x} has unknown parent {:#x}", e.addr, parent));
-                    return;
+                    if run.failed() {
+                        return;
+                    }
                 }
                 Some(p) => {
                     if es[p].num > e.num {
                         run.violate("C01", "heap-order", format!("timer heap: parent expiry {} > child expiry {}", es[p].num, e.num));
-                        return;
+                        if run.failed() {
+                            return;
+                        }
                     }
                     if prev == 0 && es[p].links[3] != e.addr {
                         run.violate("C01", "queue-links-inconsistent", format!("timer heap: node {:#x} has no prev but is not its parent's first child", e.addr));
-                        return;
+                        if run.failed() {
+                            return;
+                        }
                     }
                 }
             }
         } else if i != 0 {
             run.violate("C01", "queue-links-inconsistent", format!("timer heap: non-root node {:#x} has no parent", e.addr));
-            return;
+            if run.failed() {
+                return;
+            }
         }
         if prev != 0 {
             match find(prev) {
                 Some(p) if es[p].links[2] == e.addr && es[p].links[0] == parent => {}
                 _ => {
                     run.violate("C01", "queue-links-inconsistent", format!("timer heap: node {:#x} prev link {:#x} is not symmetric", e.addr, prev));
-                    return;
+                    if run.failed() {
+                        return;
+                    }
                 }
             }
         }
@@ -689,7 +726,9 @@ pub fn check_heap_queue(snap: &Snapshot, views: &[SlotView], run: &mut Run, orde
                 Some(p) if es[p].links[1] == e.addr && es[p].links[0] == parent => {}
                 _ => {
                     run.violate("C01", "queue-links-inconsistent", format!("timer heap: node {:#x} next link {:#x} is not symmetric", e.addr, next));
-                    return;
+                    if run.failed() {
+                        return;
+                    }
                 }
             }
         }
@@ -698,7 +737,9 @@ pub fn check_heap_queue(snap: &Snapshot, views: &[SlotView], run: &mut Run, orde
                 Some(p) if es[p].links[0] == e.addr && es[p].links[1] == 0 => {}
                 _ => {
                     run.violate("C01", "queue-links-inconsistent", format!("timer heap: node {:#x} first_child link {:#x} is not symmetric", e.addr, child));
-                    return;
+                    if run.failed() {
+                        return;
+                    }
                 }
             }
         }
@@ -709,16 +750,22 @@ pub fn check_heap_queue(snap: &Snapshot, views: &[SlotView], run: &mut Run, orde
         match owner {
             None => {
                 run.violate("C01", "dangling-node", format!("timer heap: linked node {:#x} (expiry {}) lies in no live future", e.addr, e.num));
-                return;
+                if run.failed() {
+                    return;
+                }
             }
             Some(v) => {
                 if !v.pending {
                     run.violate("C01", "linked-but-not-waiting", format!("timer heap: slot {} is linked (node state {}) but is not a pending future", v.idx, e.state));
-                    return;
+                    if run.failed() {
+                        return;
+                    }
                 }
                 if seen.contains(&v.idx) {
                     run.violate("C01", "linked-twice", format!("timer heap: slot {} is linked twice", v.idx));
-                    return;
+                    if run.failed() {
+                        return;
+                    }
                 }
                 seen.push(v.idx);
                 let wv = match e.waker {
@@ -735,7 +782,9 @@ pub fn check_heap_queue(snap: &Snapshot, views: &[SlotView], run: &mut Run, orde
     for v in views {
         if v.pending && !v.woken && !seen.contains(&v.idx) {
             run.violate2("C01", lost_wakeup_prop, "waiting-but-not-linked", format!("timer: slot {} is pending, has no unconsumed wake-up, and is not in the timer heap", v.idx));
-            return;
+            if run.failed() {
+                return;
+            }
         }
     }
 }
